@@ -138,6 +138,7 @@ func main() {
 			}
 		}
 	}
+	props.Deep = *tier == "thorough"
 	seed, _ := strconv.ParseInt(os.Getenv("VERIF_SEED"), 10, 64)
 	run := report.New(*prop, *tier, def.level, seed)
 	known, err := report.LoadKnown(filepath.Join(*verif, "known_findings.txt"))
